@@ -513,6 +513,7 @@ void tickit_term_observe_sigwinch(TickitTerm *tt, bool observe)
       tailp = &(*tailp)->next_sigwinch_observer;
     if(tailp)
       *tailp = (*tailp)->next_sigwinch_observer;
+    tt->next_sigwinch_observer = NULL;
 
     if(!first_sigwinch_observer)
       sigaction(SIGWINCH, &(struct sigaction){ .sa_handler = SIG_DFL }, NULL);
